@@ -106,6 +106,40 @@ def Q.advance (q : Q) : Q × Res :=
       let q' := { q with segs := h' :: rest }
       if h'.pos ≥ h'.blocks.length then (Q.trimHead q', Res.ok) else (q', Res.ok)
 
+/-- `segment.drained`: every block delivered, nothing buffered -/
+def Seg.drained (s : Seg) : Bool := s.pos ≥ s.blocks.length && s.buf.isEmpty
+
+/-- `queue.skipDrainedHead`: drop the head segment only if it is drained (and another segment
+follows); never moves past a block -/
+def Q.skipDrainedHead (q : Q) : Q :=
+  match q.segs with
+  | [] => q
+  | h :: _ => if h.drained then q.trimHead else q
+
+/-- what one `NodeProcessor.SendWrite` round does to the queue, with the appends `mid`
+(block, buffered?) that other goroutines get in between its look at the head
+(`queue.Current`) and its reaction.  `sent` is the block handed to the shard writer;
+`writerOK = false` is a retryable failure of the writer (the block stays). -/
+def applyAppends (q : Q) (mid : List (Block × Bool)) : Q :=
+  mid.foldl (fun q a => (q.append a.1 a.2).1) q
+
+def sendWrite (q : Q) (mid : List (Block × Bool)) (writerOK : Bool) : Q × Option Block :=
+  match q.current with
+  | .block b =>
+    let q1 := applyAppends q mid
+    if writerOK then (q1.advance.1, some b) else (q1, none)
+  | .eof => ((applyAppends q mid).skipDrainedHead, none)
+  | _ => (applyAppends q mid, none)
+
+/-- the sender as it was: `Advance` on end-of-queue -/
+def sendWriteOld (q : Q) (mid : List (Block × Bool)) (writerOK : Bool) : Q × Option Block :=
+  match q.current with
+  | .block b =>
+    let q1 := applyAppends q mid
+    if writerOK then (q1.advance.1, some b) else (q1, none)
+  | .eof => ((applyAppends q mid).advance.1, none)
+  | _ => (applyAppends q mid, none)
+
 /-- `queue.Empty`: nothing pending — on disk or in a write buffer — in any segment -/
 def Q.empty (q : Q) : Bool :=
   q.segs.all fun s => s.pos ≥ s.blocks.length && s.buf.isEmpty
